@@ -112,3 +112,7 @@ harness2!(cl_clone_from__s8_8g4__u4f, cl_clone_from, S8_8G4, U4F);
 harness2!(cl_clone_from__u0__s8_4a, cl_clone_from, U0, S8_4A);
 harness2!(cl_clone_from__s8_4one__u16_2, cl_clone_from, S8_4ONE, U16_2);
 harness2!(cl_clone_from__s8_e__s8_e, cl_clone_from, S8_E, S8_E);
+// destination allocation reused (different bucket count, capacity >= source main len) while the
+// leftovers of the source do not fit without growing
+harness2!(cl_clone_from__s8_4a__u4f, cl_clone_from, S8_4A, U4F);
+harness2!(cl_clone_from__s8t_4a__u16_2, cl_clone_from, S8T_4A, U16_2);
